@@ -1,7 +1,58 @@
-(** C11 - vyukov_hash_map: property theorems (statements only). *)
-From Coq Require Import NArith List Bool.
+(** C11 - vyukov_hash_map: property theorems (proofs in Proof/BucketState.v).
+    The [bs_*] operations and [C_*] constants are GENERATED from vyukov_hash_map<...>::bucket_state on every run:
+    a 32-bit word with bit 0 = lock, bits 1..2 = item_count, bits 3..4 = delete_marker, bits 5..31 = version.
+    Lock-free readers (try_get_value) validate against the version and the delete marker; writers and iterators
+    write such words back when they unlock a bucket. *)
+From Coq Require Import NArith List.
+From XV Require Import Base.Word gen.BucketStateGen Proof.BucketState.
 Local Open Scope N_scope.
-(** placeholder obligation (replaced by the bucket_state algebra generated from impl/vyukov_hash_map.hpp) *)
-Theorem C11_version_inc_positive : forall lock_bit : N, 0 < 2 ^ lock_bit.
-Proof. intros. apply N.neq_0_lt_0. apply N.pow_nonzero. discriminate. Qed.
-Print Assumptions C11_version_inc_positive.
+
+(** every word decomposes uniquely into (lock, item_count, delete_marker, version) *)
+Theorem C11_state_fields : forall v w, v < 2 ^ 32 -> w < 2 ^ 32 ->
+  (v = w <-> bs_is_locked v = bs_is_locked w /\ bs_item_count v = bs_item_count w /\
+             bs_delete_marker v = bs_delete_marker w /\ bs_version v = bs_version w).
+Proof. exact bs_eq_fields. Qed.
+Print Assumptions C11_state_fields.
+
+Theorem C11_state_decompose : forall v, v < 2 ^ 32 ->
+  v = b2n (bs_is_locked v) + 2 * bs_item_count v + 8 * bs_delete_marker v + 32 * bs_version v /\
+  bs_item_count v < 4 /\ bs_delete_marker v < 4 /\ bs_version v < 2 ^ 27.
+Proof. exact bs_decompose. Qed.
+Print Assumptions C11_state_decompose.
+
+(** new_version changes nothing but the version, and every number of removals below 2^27 performed while
+    a bucket is locked leaves a version that differs from the one a reader saw before: the reader's
+    validation (state.version() != state2.version()) detects every removal, also those made through an iterator *)
+Theorem C11_new_version : forall v, v < 2 ^ 32 ->
+  bs_version (bs_new_version v) = (bs_version v + 1) mod 2 ^ 27 /\
+  bs_is_locked (bs_new_version v) = bs_is_locked v /\
+  bs_item_count (bs_new_version v) = bs_item_count v /\
+  bs_delete_marker (bs_new_version v) = bs_delete_marker v.
+Proof. intros v Hv. repeat split; [apply bs_new_version_version|apply bs_new_version_is_locked|apply bs_new_version_item_count|apply bs_new_version_delete_marker]; exact Hv. Qed.
+Print Assumptions C11_new_version.
+
+Theorem C11_removals_change_version : forall i j v, v < 2 ^ 32 -> i < j -> j - i < 2 ^ 27 ->
+  bs_version (N.iter j bs_new_version v) <> bs_version (N.iter i bs_new_version v).
+Proof. intros i j v Hv Hij Hd. apply bs_new_version_iter_version_distinct; assumption. Qed.
+Print Assumptions C11_removals_change_version.
+
+(** item count and delete marker updates touch only their own field *)
+Theorem C11_inc_dec_item_count : forall v, v < 2 ^ 32 -> bs_item_count v < 3 ->
+  bs_item_count (bs_inc_item_count v) = bs_item_count v + 1 /\ bs_version (bs_inc_item_count v) = bs_version v /\
+  bs_is_locked (bs_inc_item_count v) = bs_is_locked v /\ bs_delete_marker (bs_inc_item_count v) = bs_delete_marker v /\
+  bs_dec_item_count (bs_inc_item_count v) = v.
+Proof. intros v Hv Hc. repeat split; [apply bs_inc_item_count_item_count|apply bs_inc_item_count_version|apply bs_inc_item_count_is_locked|apply bs_inc_item_count_delete_marker|apply bs_dec_inc_item_count]; assumption. Qed.
+Print Assumptions C11_inc_dec_item_count.
+
+Theorem C11_delete_marker : forall v m, bs_delete_marker v = 0 -> m < 4 ->
+  bs_delete_marker (bs_set_delete_marker v m) = m /\ bs_is_locked (bs_set_delete_marker v m) = bs_is_locked v /\
+  bs_item_count (bs_set_delete_marker v m) = bs_item_count v /\ bs_version (bs_set_delete_marker v m) = bs_version v.
+Proof. intros v m H0 Hm. repeat split; [apply bs_set_delete_marker_delete_marker|apply bs_set_delete_marker_is_locked|apply bs_set_delete_marker_item_count|apply bs_set_delete_marker_version]; assumption. Qed.
+Print Assumptions C11_delete_marker.
+
+(** lock bit: locking keeps the other fields, unlocking restores the word *)
+Theorem C11_lock : forall v, v < 2 ^ 32 -> bs_is_locked v = false ->
+  bs_is_locked (bs_locked v) = true /\ bs_clear_lock (bs_locked v) = v /\ bs_version (bs_locked v) = bs_version v /\
+  bs_item_count (bs_locked v) = bs_item_count v /\ bs_delete_marker (bs_locked v) = bs_delete_marker v.
+Proof. intros v Hv Hl. repeat split; [apply bs_locked_is_locked|apply bs_clear_lock_locked; exact Hl|apply bs_locked_version|apply bs_locked_item_count|apply bs_locked_delete_marker]. Qed.
+Print Assumptions C11_lock.
